@@ -198,7 +198,13 @@ if (require.main === module) {
     try { req = JSON.parse(line); } catch (e) { process.stdout.write(JSON.stringify({ error: 'bad json' }) + '\n'); return; }
     try {
       const s = loadScript(req.script);
+      if (req.probe) {
+        req.globals = Object.assign({}, req.globals);
+      }
+      const probeLog = [];
+      if (req.probe) req.globals.verifProbe = (n) => { probeLog.push(['p', n + '|' + new Error().stack]); return n; };
       const r = runOnce(s, req.choices || [], { globals: req.globals, maxTimers: req.maxTimers, fifoTimers: req.fifoTimers, keepStack: req.keepStack });
+      for (const e of probeLog) r.out.push(e);
       process.stdout.write(JSON.stringify({ id: req.id, out: r.out, end: r.end, points: r.points, diverged: r.diverged }) + '\n');
     } catch (e) {
       process.stdout.write(JSON.stringify({ id: req.id, error: String(e && e.stack || e) }) + '\n');
